@@ -22,7 +22,7 @@ G_GROUPS = {
     "seq4": ("MC_Yata", "G_seq4.cfg", {}),
     "map4": ("MC_Yata", "G_map4.cfg", {}),
     # rich text (spec/Rich.tla): a two-unit text, then every two / three free operations ins / del / FORMAT of two authors
-    "fmt3": ("MC_YataFmt", "G_fmt3.cfg", {"filter": "fmt", "sample": {"quick": 1000, "thorough": 5000}}),
+    "fmt3": ("MC_YataFmt", "G_fmt3.cfg", {"filter": "fmt", "sample": {"quick": 800, "thorough": 5000}}),
     # three free operations: 8.8 M states after 25 min of exhaustive search (measured), hence seeded TLC simulation (thorough tier only)
     "fmt4": ("MC_YataFmt", "G_fmt4.cfg", {"filter": "fmt", "sample": {"quick": 1500, "thorough": 5000}, "simulate": {"quick": 400, "thorough": 2500}}),
 }
@@ -130,7 +130,7 @@ def _cache_path(*parts):
 
 
 SCRIPT_SAMPLE = {"quick": 120, "thorough": 2500}
-RICH_SCRIPT_SAMPLE = {"quick": 30, "thorough": 150}
+RICH_SCRIPT_SAMPLE = {"quick": 40, "thorough": 150}
 
 
 def gen_script_family(fam, tier, workdir):
@@ -141,11 +141,12 @@ def gen_script_family(fam, tier, workdir):
     with open(os.path.join(vlib.SPEC, "scripts_index.json")) as f:
         cfgs = json.load(f)[fam]
     if fam.startswith("fmt") and tier == "quick":
-        # rich-text scripts of five operations enumerate 17 k behaviours each (20 s of TLC): thorough tier only
+        # quick tier: every second rich-text script (one TLC run each; the families list their variants in pairs), and none of
+        # the five-operation scripts (17 k behaviours, 20 s of TLC each); the thorough tier runs all 64
         def nops(cfg):
             with open(os.path.join(vlib.SPEC, cfg)) as fh:
                 return int(re.search(r"MaxOps = (\d+)", fh.read()).group(1))
-        cfgs = [c for c in cfgs if nops(c) <= 4]
+        cfgs = [c for i, c in enumerate(cfgs) if i % 2 == 0 and nops(c) <= 4]
 
     def one(cfg):
         g = vlib.generate("MC_YataScript", cfg, os.path.join(workdir, "script-" + cfg[:-4], "g"), workers=2, heap="2g", timeout=900)
